@@ -111,9 +111,10 @@ func bound(tier string) string {
 			paths[parts[1]] = true
 		}
 	}
-	docs := "every tree with <= 4 nodes over 14 scalars (+ [] and {}), 2 single-member keys"
+	docs := fmt.Sprintf("every tree with <= 4 nodes over %d scalars (+ [] and {}), %d single-member keys", len(scalarsQuick), len(singleKeysQuick))
 	if tier == engine.Thorough {
-		docs = "every tree with <= 4 nodes over 24 scalars (+ [] and {}), 6 single-member keys, and every tree with exactly 5 nodes over 14 scalars, 2 single-member keys"
+		docs = fmt.Sprintf("every tree with <= 4 nodes over %d scalars (+ [] and {}), %d single-member keys, and every tree with exactly 5 nodes over %d scalars, %d single-member keys",
+			len(scalarsQuick)+len(scalarsThoroughExtra), len(singleKeysQuick)+len(singleKeysThoroughExtra), len(scalarsCore), len(singleKeysQuick))
 	}
 	return fmt.Sprintf("documents: %s, each as JSON and as SEN text, x %d write option sets + 2 native round trips; "+
 		"Go values: %d typed scalars alone / in a slice / in a map + every tree with <= %d nodes over %d scalars; "+
